@@ -14,10 +14,13 @@ CONSTANTS
   Quantum = 2
   MaxTime = 100000
   Rule = "sum"
+  Cfgs = {"A"}
+  InitCfg = "A"
+  RL = "safe"
   Off = {}
   Lim <- GenRestart
   HistLen = 70
   EarlyPost = TRUE
   Pace = 2
-INVARIANTS Emit AtLeastOnce NoDuplicateWhenHealthy SilenceSurvivesRestart NoRepeatAfterRestart ReadyEventually Sane
+INVARIANTS Emit AtLeastOnce NoDuplicateWhenHealthy SilenceSurvivesRestart NoRepeatAfterRestart ReadyEventually RoutedByConfigInForce StatusShowsConfigInForce ReceiversAgree Sane
 CHECK_DEADLOCK FALSE
